@@ -120,6 +120,8 @@ def run(ctx):
     ctx.rule('M2e', 'add_context_category places the new category at index(name) for insert_before, index(name)+1 for '
                     'insert_after, and at 0 / len(list) when the name is unknown (per assignment of the position, under the '
                     'facts that govern it)', 4)
+    ctx.rule('M14', 'LatexContextDb reads no option through `d.pop(k[, None]) or <fallback>`: an option explicitly given as '
+                    'None (no specification for unknown names) stays None in the derived database', 0)
     ctx.rule('M9', 'closure under derivation: a derived database is built only through operations that accept '
                    'every category name the source can hold (automatically generated names included)', 1)
     ctx.rule('M8', 'an attribute computed from other attributes of the database and remembered (a derived '
@@ -398,6 +400,27 @@ def run(ctx):
     if n_pl < 4:
         ctx.unknown('M2e', m, acf, 'only %d of the 4 placement cases (insert_before/insert_after x found/not found) recognised'
                     % n_pl, construct='add_context_category: placement cases')
+
+    # ---------------------------------------------------------------- M14
+    # an option given explicitly as None (no fallback specification) is not the same as an option that was not given
+    n_fd = 0
+    for name_, fn_ in sorted(meths.items()):
+        for b_ in ast.walk(fn_):
+            if not (isinstance(b_, ast.BoolOp) and isinstance(b_.op, ast.Or) and isinstance(b_.values[0], ast.Call)
+                    and call_name(b_.values[0]) in ('pop', 'get')):
+                continue
+            c_ = b_.values[0]
+            dflt = c_.args[1] if len(c_.args) > 1 else None
+            if dflt is not None and not (isinstance(dflt, ast.Constant) and dflt.value is None):
+                continue
+            n_fd += 1
+            ctx.refuted('M14', m, b_, '%s takes an option with `%s`: an explicit None (or any falsy value) is replaced by the '
+                        'fallback, so extended_with(unknown_macro_spec=None) -- a derived database WITHOUT a fallback for '
+                        'unknown names -- silently keeps the parent\'s fallback, and lookups of unknown names succeed where '
+                        'the documented result is None / an error' % (name_, short(b_, 70)),
+                        construct='%s: %s' % (name_, short(b_, 50)))
+    ctx.holds('M14', m, None, 'no `options.pop(k) or fallback` in LatexContextDb (%d methods)' % len(meths),
+              construct='falsy-default scan', trivial=True)
 
     # ---------------------------------------------------------------- M8
     _derived_cache_invalidation(ctx, m, meths)
